@@ -41,6 +41,10 @@ private def siddPixel : String → Option SiddPixel
   | "MONO8I" => some .mono8i | "MONO8LU" => some .mono8lu | "RGB8LU" => some .rgb8lu | "MONO16I" => some .mono16i
   | "RGB24I" => some .rgb24i | _ => none
 
+private def desKind : String → Option DesKind
+  | "sicd" => some .sicdXml | "sidd" => some .siddXml | "oxml" => some .otherXml | "other" => some .other
+  | "oldsicd" => some .oldSicd | "oldsidd" => some .oldSidd | _ => none
+
 private def pairs (s : String) : Option (List (Nat × Nat)) :=
   (csv s).mapM (fun t => match t.splitOn ":" with
     | [a, b] => do pure ((← a.toNat?), (← b.toNat?))
@@ -60,7 +64,8 @@ private def triples (s : String) : Option (List (Nat × Nat × Nat)) :=
     `siddseg PT icat pvtype nbpp`               → 0/1
     `sizerule rows cols iloc:nrows,… ncols,…`   → 0/1
     `allfit itemSize signalSize off:nv:ns,…`    → 0/1
-    `pack itemSize nv:ns,…`                     → `<block size> off:nv:ns,…` -/
+    `pack itemSize nv:ns,…`                     → `<block size> off:nv:ns,…`
+    `desscan sicd|sidd|oxml|other|oldsicd|oldsidd,…` → `<index of the SICD DES | N> <siddFound 0/1>` -/
 def chkspecStep (toks : List String) : Option String :=
   match toks with
   | ["rule", name, i, b] => do
@@ -88,6 +93,9 @@ def chkspecStep (toks : List String) : Option String :=
     pure (b01' (sizeRule (← r.toNat?) (← c.toNat?) (← pairs hs) (← nats cs)))
   | ["allfit", it, gs, cs] => do
     pure (b01' (allSignalFit (← it.toNat?) (← gs.toNat?) (← triples cs)))
+  | ["desscan", ks] => do
+    let ks ← (csv ks).mapM desKind
+    pure ((match sicdScan ks with | some i => toString i | none => "N") ++ " " ++ b01' (siddFound ks))
   | ["pack", it, cs] => do
     let it ← it.toNat?
     let cs ← pairs cs
